@@ -258,7 +258,7 @@ class C04(EngineACheck):
             return ""
         p = paths[ch.choice(len(paths), "op-path")]
         k = ch.choice(7, "env-op")
-        t = proglib.tick(1 + ch.choice(3, "dt"))
+        t = proglib.tick([1, 2, 3, 0.0004][ch.choice(4, "dt")])  # (sub-millisecond steps too)
         name = os.path.basename(p)
         try:
             if k == 0:
